@@ -209,4 +209,12 @@ ADDENDA_W9 = {
 }
 for _k, _t in ADDENDA_W9.items():
     TEXTS[_k]['level'] += ' ' + _t
+ADDENDA_W10 = {
+    'C02': "ENT1: the entry point gives up in front of the value parser only when the value could not be parsed either; NUM5: digits accumulated in a double stay exact.",
+    'C04': "NUM5 (see C02).",
+    'C07': "DEL1 follows both outcomes of counter tests in cJSON_Delete.",
+    'C10': "ENT1 (see C02).",
+}
+for _k, _t in ADDENDA_W10.items():
+    TEXTS[_k]['level'] += ' ' + _t
 NOT_APPLICABLE = {}
